@@ -238,6 +238,7 @@ def _coords(r, rng):
 def run_case(r, obs):
     import lena.core
     import lena.structures
+    mon.attach()        # idempotent; --replay runs a case without setup_worker
     try:
         if r["k"] == "bad_edges":
             _bad_edges(r, obs, lena)
